@@ -20,7 +20,7 @@ import subprocess
 import tempfile
 
 from harness.fw import Check, Driver, VERIF, REPO, ToolFailure
-from harness import javagen, c21diff, dexasm, c21_jexpr
+from harness import javagen, c21diff, dexasm, c21_jexpr, c21_prop
 from harness.dalvik_interp import Machine
 
 CORPUS = os.path.join(VERIF, "corpus", "C21")
@@ -72,6 +72,7 @@ PINS = [
     ("androguard/decompiler/opcode_ins.py", "rsubintlit8"),
     ("androguard/decompiler/opcode_ins.py", "addintlit8"),
 ]
+PINS += c21_prop.PINS      # register_propagation and what it asks of the IR classes (Model/Propagate.lean)
 
 # ---------------------------------------------------------------------------------------------- known findings
 MARKER = "Both branches of the condition point to the same"
@@ -805,6 +806,7 @@ def run(ck: Check):
         leg_t_contexts(ck, drv, workdir, full=not ck.quick, escalated=getattr(ck, "escalated", False))
         c21_jexpr.leg(ck, drv, 2500 if ck.quick and not getattr(ck, "escalated", False) else 40000, workdir)
         c21_jexpr.leg_pipeline(ck, drv, workdir, 300 if ck.quick and not getattr(ck, "escalated", False) else 3000)
+        c21_prop.leg(ck, drv, 1500 if ck.quick and not getattr(ck, "escalated", False) else 20000)
         leg_s(ck, workdir)
     except javagen.BenchTimeout as e:
         raise ToolFailure("timeout in " + str(e))
